@@ -249,7 +249,7 @@ struct Exec {
             if (sc.tp == BTLS) {
                 p_refused = rc < 0 && e == EAGAIN && ready_P;
                 if (p_refused) { p_ref_tag = tag; p_ref_len = len; p2t.pending.assign((const char *)b.data(), len); }
-                else p2t.pending.clear();
+                else if (rc > 0) p2t.pending.clear();
             }
             c.log("P xcm_send(%u) -> %d %s", len, rc, rc < 0 ? errname(e) : "");
             if (bs) { if (rc > 0) { size_t skip = std::min<size_t>(p2t.moved, rc); p2t.bytes.append((const char *)b.data() + skip, rc - skip); p2t.moved = 0; } }
@@ -480,7 +480,7 @@ struct Exec {
             if (sc.tp == BTLS) {
                 t_refused = rc < 0 && e == EAGAIN && ready_T;
                 if (t_refused) { t_ref_tag = tag; t_ref_len = len; t2p.pending.assign((const char *)buf, len); }
-                else t2p.pending.clear();
+                else if (rc > 0) t2p.pending.clear(); // a retry that fails may still have emitted the pending record
             }
         } else if (kind == OP_RECV) {
             cap = len ? len : 1;
